@@ -119,7 +119,7 @@ cdef class cyQMBase_template:
         # but no harm in double checking for some future-proofness
         samples = np.ascontiguousarray(
                 samples,
-                dtype=f'i{samples.dtype.itemsize}' if np.issubdtype(samples.dtype, np.unsignedinteger) else None,
+                dtype=np.result_type(samples.dtype, np.int8) if np.issubdtype(samples.dtype, np.unsignedinteger) else None,
                 )
 
         try:
